@@ -1,3 +1,124 @@
-import Chiritori.Spec.Holds
+import Chiritori.Lemmas.Tree
+import Chiritori.Lemmas.Lines
+import Chiritori.Props.C06
+/-
+  C04 — No-op identity when nothing is ready.
+
+  `Statement`: if the reference evaluation (`Spec.nothingReady`: every element of the parse forest either
+  fails its condition / is skipped / is unregistered, or has an empty extent because its unwrap-block cannot be
+  unwrapped) finds no ready element, `clean` returns the source unchanged, byte for byte.
+  Malformed, unclosed and stray tags are not elements of the forest at all (C10).
+-/
 namespace Chiritori.Props.C04
+open Chiritori Chiritori.Spec
+
+/-- the strategy's range is empty exactly when the reference extent is -/
+theorem createRange_empty_of_extent_nil (b : Bytes) (el : Element) (st en : Token)
+    (h1 : 0 < st.bstop) (h2 : en.bstart ≤ b.length) (he : extentOf b el st en = []) :
+    (createRange b el st en).1.isEmpty = true := by
+  unfold createRange
+  unfold extentOf at he
+  have ha : (el.attrs.any fun a => a.name == "unwrap-block".toList) = hasAttr el "unwrap-block" := rfl
+  rw [ha]
+  cases hu : hasAttr el "unwrap-block" with
+  | true =>
+    rw [hu] at he
+    simp only [ite_true] at he ⊢
+    rw [buildUnwrap_eq b st en h1 h2]
+    cases hp : unwrapParts b st en with
+    | none => simp [Rng.isEmpty]
+    | some ht => obtain ⟨h, t⟩ := ht; rw [hp] at he; simp at he
+  | false =>
+    rw [hu] at he
+    simp only [Bool.false_eq_true, ite_false] at he ⊢
+    by_cases hlt : st.bstart < en.bstop
+    · simp [hlt] at he
+    · simp [buildRange, Rng.isEmpty]; omega
+
+theorem elementRange_false_flag (cfg : Cfg) (content : Bytes) (el : Element) (st en : Token)
+    (r : Rng) (p : Option Rng) (b : Bool) (h : elementRange cfg content false el st en = some (r, p, b)) :
+    b = true := by
+  unfold elementRange at h
+  cases hs : isSkip el <;> rw [hs] at h
+  · cases he : evaluatorFor cfg el.name <;> rw [he] at h
+    · simp at h
+    · rename_i ev
+      cases hv : ev el <;> simp [hv] at h
+      cases hc : createRange content el st en with
+      | mk r' p' =>
+        rw [hc] at h
+        simp only at h
+        exact h.2.2.2
+  · simp at h
+
+/-- what has to hold of every element for nothing to be collected -/
+def NoneReady (cfg : Cfg) (content : Bytes) (parts : List Part) : Prop :=
+  ∀ el st en, (el, st, en) ∈ elementsOf parts → elementRange cfg content false el st en = none
+
+mutual
+theorem collect_nil (cfg : Cfg) (content : Bytes) : ∀ (parts : List Part),
+    NoneReady cfg content parts → (collect cfg content false parts).1 = []
+  | [], _ => rfl
+  | p :: ps, h => by
+    have h1 := collectPart_nil cfg content p (fun el st en he => h el st en (by simp [elementsOf, he]))
+    have h2 := collect_nil cfg content ps (fun el st en he => h el st en (by simp [elementsOf, he]))
+    simp only [collect]
+    rw [h1, h2]
+    rfl
+theorem collectPart_nil (cfg : Cfg) (content : Bytes) : ∀ (p : Part),
+    (∀ el st en, (el, st, en) ∈ elementsOfPart p → elementRange cfg content false el st en = none) →
+    (collectPart cfg content false p).1 = []
+  | .text _, _ => rfl
+  | .element el st en ch, h => by
+    have h0 := h el st en (by simp [elementsOfPart])
+    have hch := collect_nil cfg content ch (fun el' st' en' he => h el' st' en' (by simp [elementsOfPart, he]))
+    simp only [collectPart, h0]
+    exact hch
+end
+
+theorem clean_of_no_markers (src ds de : List Char) (cfg : Cfg)
+    (h : buildRemoveMarker cfg (bytesOf src) (parseSource src ds de) = []) : clean src ds de cfg = .ok src := by
+  unfold clean
+  simp only [h]
+  simp [removeMarkers, deleteAll, getRemovedPos, removedPosAux, format, formatCollect, mergeRanges, sortByStart,
+    mergeOverlapped, deleteRanges, bind, Except.bind, pure, Except.pure]
+
+def Statement : Prop :=
+  ∀ (src ds de : List Char) (cfg : Cfg), ds ≠ [] → de ≠ [] →
+    nothingReady src ds de cfg = true → clean src ds de cfg = .ok src
+
+theorem c04 : Statement := by
+  intro src ds de cfg _ hde hn
+  apply clean_of_no_markers
+  unfold buildRemoveMarker
+  have hnone : NoneReady cfg (bytesOf src) (parseSource src ds de) := by
+    intro el st en hmem
+    have hb := element_token_bounds src ds de hde el st en hmem
+    -- the reference says: condition fails, or the extent is empty
+    have hext : conditionHolds cfg el = true → extentOf (bytesOf src) el st en = [] := by
+      intro hc
+      unfold nothingReady extentsOfSource readyExtents at hn
+      rw [List.isEmpty_iff] at hn
+      have := List.flatMap_eq_nil_iff.mp hn (el, st, en) hmem
+      simpa [hc] using this
+    cases her : elementRange cfg (bytesOf src) false el st en with
+    | none => rfl
+    | some rpb =>
+      obtain ⟨r, p, b⟩ := rpb
+      have hbt := elementRange_false_flag cfg _ el st en r p b her
+      subst hbt
+      obtain ⟨hc, hne⟩ := (C06.ready_iff cfg (bytesOf src) false el st en).mp ⟨r, p, her⟩
+      have := createRange_empty_of_extent_nil (bytesOf src) el st en (by omega) (by simp; omega) (hext hc)
+      rw [this] at hne
+      exact absurd hne (by simp)
+  rw [collect_nil cfg (bytesOf src) _ hnone]
+  rfl
+
+/-! Non-vacuity: a source with a pending element, a skipped ready element and an unwrap-block that cannot be unwrapped. -/
+def exCfg : Cfg := ⟨"tl".toList, "rm".toList, 1577836800, 0, "+00:00".toList, ["a".toList]⟩
+def exSrc : List Char :=
+  "x\n<tl to='2999-01-01 00:00:00'>\ny\n</tl>\n<rm name='a' skip>\nz\n</rm>\n<rm name='a' unwrap-block>\nw\n</rm>\n".toList
+example : nothingReady exSrc "<".toList ">".toList exCfg = true := by decide +kernel
+example : (elementsOf (parseSource exSrc "<".toList ">".toList)).length = 3 := by decide +kernel
+
 end Chiritori.Props.C04
